@@ -274,7 +274,7 @@ func c01Run(t *testing.T, run *Run, sc c01Scenario) {
 	for _, name := range newNames {
 		fg := time.Duration(-1)
 		for _, p := range w.Target(name).ProbeLog() {
-			if p.Ended && p.Accepted && p.Status >= 200 && p.Status <= 299 {
+			if p.Passed(c01ProbeTO) {
 				fg = p.End
 				break
 			}
